@@ -402,7 +402,7 @@ fn check_xml(ep: &EnergyPerformance, xml: &str, cfg: &str, feats: &[&str], out: 
 
 fn strings() -> Vec<&'static str> {
     vec![
-        "texto", "a<b", "a>b", "a&b", "a\"b", "a'b", "a\\b", "]]>", "&amp;", "<!--", "-->", "<?xml", "año", "€uro", "😀", "a<b>&c\"d'e\\f", "--", "</Comentario>", "&lt;", "&#x0;", "<![CDATA[", "a: b", "%s{}", "\u{feff}x",
+        "texto", "a<b", "a>b", "a&b", "a\"b", "a'b", "a\\b", "]]>", "&amp;", "<!--", "-->", "<?xml", "año", "€uro", "😀", "a<b>&c\"d'e\\f", "--", "</Comentario>", "&lt;", "&#x0;", "<![CDATA[", "a: b", "%s{}", "\u{feff}x", "η>0.9", "Edificio «A» & anexo", "ñ<ñ", "日本語\"x\"", "é&é>é",
     ]
 }
 
@@ -445,7 +445,14 @@ impl StateCheck for C17 {
                 }
             };
             let cfg = format!("k_exp={k} area={area} load_matching={lm} run={run}");
-            let txt = ep.to_plain();
+            // a writer that panics produces no document at all: that is this property's business too
+            let txt = match std::panic::catch_unwind(std::panic::AssertUnwindSafe(|| ep.to_plain())) {
+                Ok(t) => t,
+                Err(_) => {
+                    out.viol("plain_report_produced", &feats, &cfg, format!("the writer panics at {}", crate::core::last_panic_location()), "a report");
+                    return;
+                }
+            };
             let mut p = check_plain(&ep, &txt, &cfg, out);
             if !crate::cmp::ratios_ok(&ep, subj::magnitude(&c, &fs)) {
                 // ratios of a total that is rounding noise are not comparable between runs
@@ -466,7 +473,10 @@ impl StateCheck for C17 {
                 } else {
                     out.regime("demands_absent");
                 }
-                check_xml(&ep, &ep.to_xml(), &cfg, &f2, out);
+                match std::panic::catch_unwind(std::panic::AssertUnwindSafe(|| ep.to_xml())) {
+                    Ok(x) => check_xml(&ep, &x, &cfg, &f2, out),
+                    Err(_) => out.viol("xml_produced", &f2, &cfg, format!("the writer panics at {}", crate::core::last_panic_location()), "an XML document"),
+                }
             }
             // runs 0, 2, 3, 4 are the same evaluation under other hash keys: same tables
             if let Some(p) = p {
@@ -621,13 +631,15 @@ fn extra_letters() -> Vec<Letter> {
         Letter::one(o(9, "REF", &[-300, -100])),
         // demands whose annual sum is exactly zero (declared, so reported as 0.0 and not as absent)
         Letter::one(d("REF", &[0, 0])),
+        // an annual demand (one value) beside components with two steps
+        Letter::one(d("ACS", &[1234])),
     ]
 }
 
 pub fn run(ctx: &Ctx) -> i32 {
     let shared = Shared::new("C17", ctx);
     let bases: Vec<String> = bases_for_strings().into_iter().map(|l| l.lines[0].render()).collect();
-    explore(ctx, "comment / metadata strings: 9 placements x 24 strings (in-process + CLI files)", StringsSpace { bases, strs: strings() }, C17 { cli: true }, shared.clone());
+    explore(ctx, "comment / metadata strings: 9 placements x 29 strings (in-process + CLI files)", StringsSpace { bases, strs: strings() }, C17 { cli: true }, shared.clone());
     let mut al = alpha::flow(2, &[0, 100, 300], Rich::Base);
     al.extend(extra_letters());
     let d = if ctx.quick() { 2 } else { 3 };
@@ -643,7 +655,7 @@ pub fn run(ctx: &Ctx) -> i32 {
         &C17 { cli: true },
         Finish {
             level: "model_checking",
-            rule: "results of every FLOW(+demand/aux/output/large value) state and of 9 placements (component comments of every kind, metadata key and value, legacy metadata, demand comment, factor comments and metadata) x 24 strings (<, >, &, quotes, backslash, ]]>, &amp;, <!--, -->, <?xml, non-ASCII, 4-byte UTF-8, combinations); each evaluated 5 times (other hash keys / configuration): plain report parsed by label against the result at printed precision, tables sorted and stable across runs, JSON valid = result field by field and read back to the same value, XML accepted by a strict well-formedness checker and carrying kexp/AreaRef/Epm2/component values; CLI: --json/--xml/--txt files; non-trivial = tables compared across runs".into(),
+            rule: "results of every FLOW(+demand/aux/output/large value) state and of 9 placements (component comments of every kind, metadata key and value, legacy metadata, demand comment, factor comments and metadata) x 29 strings (<, >, &, quotes, backslash, ]]>, &amp;, <!--, -->, <?xml, non-ASCII, 4-byte UTF-8, combinations); each evaluated 5 times (other hash keys / configuration): plain report parsed by label against the result at printed precision, tables sorted and stable across runs, JSON valid = result field by field and read back to the same value, XML accepted by a strict well-formedness checker and carrying kexp/AreaRef/Epm2/component values; CLI: --json/--xml/--txt files; non-trivial = tables compared across runs".into(),
             assumptions: strs(&["printed precision: half a unit of the last printed digit", "C0 control characters are outside the alphabet", "own XML 1.0 well-formedness checker (no DTD)", "CLI leg runs under the getrandom shim with a fixed seed"]),
             required_regimes: strs(&["demands_present", "demands_absent", "special_string", "cli_run"]),
             extra: serde_json::json!({}),
